@@ -399,9 +399,9 @@ _SPACES = {}
 def _space(tier):
     if tier not in _SPACES:
         if tier == "quick":
-            specs = [(2, True), (3, True), (4, True), (5, False)]
+            specs = [(1, False), (2, False), (2, True), (3, True), (4, True), (5, False)]
         else:
-            specs = [(2, True), (3, True), (4, True), (5, True), (5, False), (6, False), (7, False)]
+            specs = [(1, False), (2, False), (2, True), (3, True), (4, True), (5, True), (5, False), (6, False), (7, False)]
         _SPACES[tier] = gen.GraphSpace(specs)
     return _SPACES[tier]
 
